@@ -124,4 +124,65 @@ func runC23(c *Ctx) {
 		}
 	}
 	c.Check(okSend, "getblock-delivery", hk, hb.Pos(), "GetBlock mode delivers the block decoded from this Block message", "the value sent on blockChan is not the block decoded from the received message")
+	// the per-request delivery mode belongs to the request that holds the busy token: a requester writes client state
+	// only after it acquired the token, otherwise a call queued behind a batch in flight redirects that batch's blocks
+	handlerReads := map[string]bool{} // client fields the message handlers consult
+	for _, hf := range c.pkgFuncs("protocol/blockfetch") {
+		if hf.Signature.Recv() == nil || !strings.HasSuffix(typeStr(hf.Signature.Recv().Type()), "blockfetch.Client") || !strings.HasPrefix(hf.Name(), "handle") {
+			continue
+		}
+		for _, in := range fnInstrs(hf) {
+			if fa, ok := in.(*ssa.FieldAddr); ok && trace(fa.X) == "p0" {
+				handlerReads[fieldName(fa.X.Type(), fa.Field)] = true
+			}
+		}
+	}
+	for _, name := range []string{"Client.GetBlock", "Client.GetBlockRange"} {
+		fo := c.FuncObjOpt("protocol/blockfetch", name)
+		if fo == nil {
+			continue
+		}
+		fn := c.SSAOf(fo)
+		if fn == nil || len(fn.Blocks) == 0 {
+			continue
+		}
+		fk := ssaFuncKey(fn)
+		var acq ssa.CallInstruction
+		for _, ci := range allCalls(fn) {
+			if cal := ci.Common().StaticCallee(); cal != nil && strings.Contains(strings.ToLower(cal.Name()), "acquirebusy") {
+				acq = ci
+			}
+		}
+		if acq == nil {
+			c.Undecided("%s: the busy token is not acquired here; the request-state rule was not derived for this shape", fk)
+			continue
+		}
+		for _, in := range fnInstrs(fn) {
+			st, ok := in.(*ssa.Store)
+			if !ok {
+				continue
+			}
+			fa, ok := st.Addr.(*ssa.FieldAddr)
+			if !ok || trace(fa.X) != "p0" {
+				continue
+			}
+			fname := fieldName(fa.X.Type(), fa.Field)
+			if !handlerReads[fname] {
+				continue
+			}
+			after := acq.Block().Dominates(st.Block()) && acq.Block() != st.Block()
+			if acq.Block() == st.Block() {
+				for _, bi := range st.Block().Instrs {
+					if bi == ssa.Instruction(acq.(ssa.Instruction)) {
+						after = true
+						break
+					}
+					if bi == ssa.Instruction(st) {
+						break
+					}
+				}
+			}
+			c.Check(after, "request-state-under-busy", fk+":"+fname, st.Pos(), "client state is written after the busy token was acquired", "the client's "+fname+" is written before the busy token is acquired: a call queued behind a batch in flight changes how that batch's remaining blocks are delivered (they go to the other consumer and are never read)")
+		}
+	}
 }
